@@ -196,6 +196,9 @@ class VocabUnit:
                     kind="vocab", cex={"args": {"kind": "vocab", "examples": st["bad"][:5]}})
             o.confirmed_natively = bool(st["bad"])
             o.paths = st["n"]
+            if not st["bad"] and st.get("undecided"):
+                o.status = "unsupported"
+                o.detail = "%d words: %s" % (len(st["undecided"]), json.dumps(st["undecided"][0], ensure_ascii=False))
             obs.append(o)
         return obs, {"paths": n, "assumptions": ["vocabulary lemmas are finite: every listed word is checked with the real regex engine (fullmatch)"]}
 
